@@ -7,7 +7,7 @@ FAMILY = "run"
 
 MANIFEST = {
  "level": "other",
- "text": "Partly proved, partly explored. Proved (Props/C05.v): the inline small-integer path lookup equals the generic byte-string lookup on the canonical encoding, result and cost, for every index below 2^26 and every environment (incl. the extra leading-zero byte at 7/15/23/31 bits); the precomputed sha256(1 || n) table re-read from more_ops.rs by the translator equals the Gallina SHA-256 of (1 :: canonical bytes of n) for every entry (finite, complete, by computation); the model implements each arithmetic operator once, on unbounded integers, which is what both the u64/i64 fast path and the bignum path must compute, and it agrees with both builds observation by observation. Not proved: that the Rust fast-path arithmetic (checked_add fall-backs, limb counting on u64) equals the generic path - decided by building the harness three times (default, no-fastpath, counters+pre-eval with an observe-only callback) from the current source and comparing every run and every direct operator call across the binaries, incl. allocator counts.",
+ "text": "Partly proved, partly explored. Proved (Props/C05.v): the inline small-integer path lookup (traverse_path_fast) equals the generic byte-string lookup (traverse_path) on the canonical encoding - node, cost and error - for every index below 2^32 (inline atoms are below 2^26) and every environment, incl. the extra leading-zero byte at 7/15/23/31 path bits, and in the form the evaluator uses it (an atom whose small_number is v is looked up the same either way); the precomputed sha256(1 || n) table re-read from more_ops.rs by the translator has 37 entries, each equal to the Gallina SHA-256 of (1 :: canonical bytes of n) (finite, complete, by computation). Documentation, not a theorem: the model implements each arithmetic operator once, on unbounded integers, which is what both the u64/i64 fast paths and the bignum paths must compute; the model has no instrumentation. Not proved: that the Rust fast-path arithmetic (checked_add fall-backs, limb counting on u64) equals the generic path, and that the counters / pre-eval features are observe-only - both decided by building the harness three times (default, no-fastpath, counters+pre-eval with an observe-only callback) from the current source and comparing every run across the binaries (result, cost, error, allocator counts) and with the model.",
  "note": vlib.NOTE_COMMON + " Level 'other': see text.",
  "technique": "Coq proof (fast path lookup = generic lookup; finite table check by vm_compute) + three separately built harness binaries compared with each other and with the model",
 }
@@ -45,6 +45,18 @@ def run(ctx):
             v = (1 << (bits - 1)) | r.getrandbits(bits - 1) if bits > 1 else 1
             P.append((gen.tt(i2a(v)), gen.tt(deep)))
             P.append((gen.tt(b"\x00" + i2a(v)), gen.tt(deep)))
+    # paths that follow the spine of `deep` (so the lookup SUCCEEDS and its cost is observed) with
+    # 0..36 path bits, incl. the 7/15/23/31-bit paths whose canonical encoding carries a zero byte;
+    # stepping off the spine at the last bit reaches an atom (also a success)
+    for k in range(0, 37):
+        v = 1 << k
+        for j in range(k):
+            if (39 - j) % 3 == 0:
+                v |= 1 << j
+        for w in (v, v ^ (1 << (k - 1))) if k else (v,):
+            P.append((gen.tt(i2a(w)), gen.tt(deep)))
+            P.append((gen.tt(b"\x00" + i2a(w)), gen.tt(deep)))
+            P.append((gen.tt(op(16, i2a(w), q(i2a(1)))), gen.tt(deep)))
     lines = []
     for p, e, tag in [(p, e, "") for p, e in P] + pool:
         f = runlib.pick_flags(r, tag, 0.12)
